@@ -197,9 +197,9 @@ Definition shared_b (keys : list (nat * key)) (log : list ev) : bool := shared_s
 (* ------------------------------------------------------------------ conns_drain *)
 Definition is_internal (a : action) : bool :=
   match a with
-  | AWaitDone _ | AWaitCtx _ | ADialCtx _ | APublish _ | ABook _ | AInsert _ | ASend _
+  | AWaitDone _ | AWaitCtx _ | ADialCtx _ | ARetry _ | ABook _ | APublish _ | AInsert _ | ASend _
   | AUnsub _ | AUnsubSend _ | ARemove _ | AClose _
-  | ARLRemove _ | ARLClose _ | ARLReadErr _ | ATimerFire _ | ATimerClose _ | ARemoveConn _ => true
+  | ARLRemove _ | ARLClose _ | ARLReadErr _ | ATimerFire _ | ARemoveConn _ => true
   | _ => false
   end.
 (* nothing internal can move and no idle timer is pending *)
